@@ -8,7 +8,7 @@ O3 no process-wide state carried between the tasks of one worker
 import ast
 import re
 
-from ..engine.program import AnalysisError, dotted, src, walk_no_nested, call_name, shape
+from ..engine.program import AnalysisError, dotted, src, walk_no_nested, call_name, shape, enclosing_function, enclosing_stmt
 from ..engine import setorder
 from . import c10, c15
 
@@ -226,7 +226,71 @@ def o2(prog, ctx):
             ctx.ok("O2", "%s:%d" % (DSP, loops[0].lineno), "%s consumes results sequentially in submission order" % q)
 
 
+def o7(prog, ctx):
+    """Numbers handed out by a per-process counter (ReadAssignment.assignment_id_generator) name an object; their ORDER is the order in
+    which one worker process happened to create objects and differs with --threads.  Such a number is copied, serialised and compared for
+    equality - it is never ordered (<, >, min / max / sorted keys)."""
+    ISO_ = "src/isoform_assignment.py"
+    # attributes assigned from a class-level id generator's increment()
+    gens = set()
+    for m, q, c in prog.all_classes():
+        for st in c.body:
+            if isinstance(st, ast.Assign) and isinstance(st.value, ast.Call) and (call_name(st.value) or "").endswith("IDDistributor") \
+                    and isinstance(st.targets[0], ast.Name):
+                gens.add("%s.%s" % (c.name, st.targets[0].id))
+    id_attrs = set()
+    for m, q, f in prog.all_functions():
+        for st in walk_no_nested(f):
+            if isinstance(st, ast.Assign) and isinstance(st.value, ast.Call) and isinstance(st.value.func, ast.Attribute) \
+                    and st.value.func.attr == "increment" and (dotted(st.value.func.value) or "") in gens \
+                    and isinstance(st.targets[0], ast.Attribute):
+                id_attrs.add(st.targets[0].attr)
+    if not id_attrs:
+        ctx.undecided("O7", prog.module(ISO_).tree, "ReadAssignment", "no attribute numbered from a class-level id generator found")
+        return
+    n = 0
+    for m, q, f in prog.all_functions():
+        for x in walk_no_nested(f):
+            if not (isinstance(x, ast.Attribute) and x.attr in id_attrs and isinstance(x.ctx, ast.Load)):
+                continue
+            n += 1
+            cur, bad = x, None
+            while cur is not None and not isinstance(cur, ast.stmt):
+                par = getattr(cur, "_parent", None)
+                if isinstance(par, ast.Compare) and any(isinstance(o, (ast.Lt, ast.LtE, ast.Gt, ast.GtE)) for o in par.ops):
+                    bad = "an ordering comparison"
+                if isinstance(par, ast.Lambda):
+                    gp = getattr(par, "_parent", None)
+                    if isinstance(gp, ast.keyword) and gp.arg == "key":
+                        bad = "a sort / min / max key"
+                if isinstance(par, ast.Call) and call_name(par) in ("min", "max", "sorted") and cur in par.args:
+                    bad = "an argument of %s()" % call_name(par)
+                cur = par
+            if bad:
+                ctx.fail("O7", x, q, src(enclosing_stmt(x))[:90], "%s is used in %s: the number comes from a counter every worker process keeps for "
+                         "itself, so which of two objects is 'smaller' depends on --threads and on which worker handled which chromosome"
+                         % (src(x), bad))
+    # a nested function / lambda body is not walked by walk_no_nested of its host: look into lambdas explicitly
+    for rel in sorted(prog.modules):
+        for lam in [l for l in ast.walk(prog.modules[rel].tree) if isinstance(l, ast.Lambda)]:
+            gp = getattr(lam, "_parent", None)
+            if isinstance(gp, ast.keyword) and gp.arg == "key":
+                for x in ast.walk(lam.body):
+                    if isinstance(x, ast.Attribute) and x.attr in id_attrs:
+                        n += 1
+                        fn = enclosing_function(lam)
+                        ctx.fail("O7", x, getattr(fn, "_qualname", "<module>"), src(gp)[:90], "%s is used as a sort / min / max key: the number "
+                                 "comes from a counter every worker process keeps for itself, so the element chosen depends on --threads"
+                                 % src(x))
+    if not [f_ for f_ in ctx.findings if f_.rule == "O7"]:
+        ctx.ok("O7", ISO_, "%d uses of %s: copied, serialised or compared for equality only" % (n, sorted(id_attrs)))
+    ctx.floor("O7", "uses of per-process object numbers", n, 5)
+
+
 def run(prog, ctx):
+    ctx.rule("O7", "an attribute numbered by <Class>.<generator>.increment() (per-process counter) is never an operand of <, <=, >, >= and "
+                   "never part of a key= of min / max / sorted / sort")
+    o7(prog, ctx)
     ctx.rule("O5", "every file an object opens in append mode is truncated by its constructor (rule R7 of C07): a second identical run into the "
                    "same output folder must not add its rows to the rows of the first")
     from . import c07 as _c07
